@@ -816,6 +816,80 @@ func c20SDK(c *Ctx) {
 	ruleLogSettingChains(c, lx, "R4")
 	// R4 (c) periodic reader
 	minfo := mx.Pkg.TypesInfo
+	// the environment value is a number of milliseconds: multiplied into a time.Duration it overflows (to a negative value) beyond
+	// about 9.2e12 — the product is returned only for a number that passed an upper bound, or after it was itself found positive
+	if fn := c.Fn(mx, "R4", "envDuration"); fn != nil {
+		g := mx.FG(fn)
+		n, bad := 0, ""
+		var badPos token.Pos
+		for _, x := range g.Nodes {
+			rs, ok := x.N.(*ast.ReturnStmt)
+			if !ok || len(rs.Results) != 1 {
+				continue
+			}
+			res := unparen(rs.Results[0])
+			var prod *ast.BinaryExpr
+			checkedVar := types.Object(nil)
+			if be, isB := res.(*ast.BinaryExpr); isB && be.Op == token.MUL {
+				prod = be
+			} else if v := objOf(minfo, res); v != nil {
+				if d := g.LocalDef(v); d != nil {
+					if be, isB := unparen(d).(*ast.BinaryExpr); isB && be.Op == token.MUL {
+						prod, checkedVar = be, v
+					}
+				}
+			}
+			if prod == nil {
+				continue
+			}
+			// the integer factor
+			var factor types.Object
+			for _, side := range []ast.Expr{prod.X, prod.Y} {
+				if cv, isC := unparen(side).(*ast.CallExpr); isC && len(cv.Args) == 1 && minfo.Types[cv.Fun].IsType() {
+					factor = objOf(minfo, cv.Args[0])
+				}
+			}
+			if factor == nil {
+				continue
+			}
+			n++
+			ok2, _ := g.DominatedByEdges(x, func(e *GEdge) bool {
+				return edgeImplies(e, func(cnd ast.Expr, pol int) bool {
+					l, op, r, good := cmpNorm(cnd, pol)
+					if !good {
+						return false
+					}
+					// factor <= K / factor < K (an upper bound on the number of milliseconds), through an integer conversion
+					if cv, isC := unparen(l).(*ast.CallExpr); isC && len(cv.Args) == 1 && minfo.Types[cv.Fun].IsType() {
+						l = cv.Args[0]
+					}
+					if sameVar(minfo, l, factor) && (op == token.LEQ || op == token.LSS) {
+						if tv, has := minfo.Types[r]; has && tv.Value != nil {
+							return true
+						}
+					}
+					// the product itself found positive
+					if checkedVar != nil && sameVar(minfo, l, checkedVar) && (op == token.GTR || op == token.GEQ) {
+						if k, isC := constInt(minfo, r); isC && ((op == token.GTR && k >= 0) || (op == token.GEQ && k >= 1)) {
+							return true
+						}
+					}
+					return false
+				})
+			})
+			if !ok2 {
+				bad, badPos = exprStr(prod)+" is returned without an upper bound on "+factor.Name(), rs.Pos()
+			}
+		}
+		if n > 0 {
+			pos := fn.Pos()
+			if bad != "" {
+				pos = badPos
+			}
+			c.Check(bad == "", "R4", "sdk/metric|envDuration|milliseconds × time.Millisecond cannot overflow", at(mx.M, pos), itoa(n)+" product(s), each bounded from above",
+				"OTEL_METRIC_EXPORT_INTERVAL / _TIMEOUT above about 9.2e12 overflow time.Duration to a negative value, which reaches time.NewTicker in the reader's goroutine (panic: non-positive interval for NewTicker — the process dies): "+bad)
+		}
+	}
 	for _, nm := range []string{"WithInterval", "WithTimeout"} {
 		fn := c.Fn(mx, "R4", nm)
 		if fn == nil {
